@@ -40,6 +40,14 @@ CALIBRATE = bool(os.environ.get('VERIF_CALIBRATE'))
 _stats = {'max_ratio': 0.0, 'max_ratio_case': None, 'max_steps_per_byte': 0.0}
 
 
+def _frame_length(data):
+    from harness import ref_message
+    try:
+        return ref_message.frame_length(data)
+    except Exception:
+        return None
+
+
 def sig_run(data):
     best = cur = 0
     for b in data:
@@ -151,6 +159,23 @@ def _decode_one(ctx, data, klass, case, how='parse', sig=None):
         ctx.distinct('exception_types', type(val).__name__)
         return 'exception'
     ctx.count('outcome_decoded')
+    if how == 'protocol' and len(data) >= 16 and _frame_length(data) == len(data) and data[1] in (1, 2, 3, 4):
+        # (of a known type: the specification wants messages of unknown types ignored, which this does not judge)
+        # one complete message went into a connection and the read returned normally: then the message was decoded and
+        # handed on - or the decoder refuses these bytes, and the connection must be on its way out.  A refused message
+        # that simply vanishes ends in neither way (and whatever it brought along, descriptors say, stays behind for the
+        # next message)
+        try:
+            MSG.parseMessage(data, [])
+            refused = None
+        except Exception as e:
+            refused = e
+        if refused is not None:
+            ctx.count('protocol_reads_of_refused_messages_returning_normally')
+            if not val.proto.got and not (val.t.disconnecting or val.t.disconnected or val.lost):
+                ctx.report('refused-message-vanishes',
+                           'a message the decoder refuses (%r) was read by a connection without an exception, without '
+                           'being delivered and without the connection being closed' % (refused,), w, case)
     if how != 'protocol':
         body = val[1] if how == 'unmarshal' else getattr(val, 'body', None)
         size = result_size(body)
